@@ -46,6 +46,7 @@ LINK_CORE = ["[link](http://ex.com/a)", "[two words](http://ex.com/a_b?q=1&r=2)"
              "[same dest](http://ref.example/x)", "[same dest](http://ref.example/x \"Different\")", "[same dest](/rel/path_a \"Title here\")",
              # autolinks whose resolved target differs from what is written (scheme added by the reader)
              "www.example.com/chef's-menu", "<a.b@c.example>", "www.bare.example.org",
+             "[sp](<http://x.y/a b>)", "![i](<my img.png> \"t\")", "[p](<http://x.y/(a>)",
              "[文档](https://example.com/wiki/中文doc)", "https://example.com/文档v2", "![图alt](img中文2.png)"]
 LINK_HOSTILE = ["[sp](<http://x.y/a b>)", "[t](http://x.y 'single')", "[p](http://x.y (paren))", "[dots. End](http://x.y)",
                 "[nested [br]](http://x.y)", "[e](http://x.y/(a))", "www.bare.example.org"]
@@ -281,6 +282,9 @@ class Gen:
                 self.feats.add("partly-bold-heading")
             if _could_start_block(ws[0]) and not ws[0].startswith("*"):
                 ws[0] = "Title"
+            if style == "setext" and r.random() < 0.15 and kind >= 0.30:
+                ws.append(r.choice(["#", "##", "C#"]))  # not a closing sequence in a setext heading: part of the text
+                self.feats.add("setext-hash-tail")
             return {"t": "heading", "level": level, "style": style, "words": ws,
                     "closing": r.random() < 0.1 and style == "atx"}
         if k < 0.64:
@@ -306,8 +310,8 @@ class Gen:
         if k < 0.84:
             return self.code(ctx)
         if k < 0.91:
-            if ctx != "top" and not self.hostile:
-                return self.para()
+            if ctx == "item" and not self.hostile:
+                return self.para()  # marko does not read a table inside a list item as a table
             if ctx != "top":
                 self.feats.add("table-in-container")
             return self.table()
@@ -361,10 +365,8 @@ class Gen:
                                                               "  " + other * 3, ch * n + " not closing"]))
         # a line consisting only of >= n fence chars would close the fence: keep content valid
         lines = [ln + " x" if (ln.strip() and set(ln.strip()) == {ch} and len(ln.strip()) >= n) else ln for ln in lines]
-        while lines and lines[-1].strip() == "":
-            lines.pop()  # trailing blank lines of a code block: known C04 deviation, hostile only
-        while lines and lines[0].strip() == "" and not self.hostile:
-            lines.pop(0)
+        # blank lines at the start and at the end of the code are code too; whitespace-only ones are normalised to empty
+        lines = [ln if ln.strip() else "" for ln in lines]
         if r.random() < 0.15:
             # a documentation sample inside the code block: an inner fence line with an info string (content, since a
             # closing fence carries no info string) followed by tag / list / table look-alike lines
@@ -459,13 +461,7 @@ class Gen:
             if out and out[-1]["t"] == "list" and b["t"] == "list":
                 # two sibling lists must differ in marker or they are one list
                 if b["ordered"] == out[-1]["ordered"]:
-                    if b["ordered"] and not self.hostile:
-                        # flowmark respells every ordered list with '.', so two sibling ordered lists
-                        # that differ only in delimiter merge (listed finding; hostile profile only)
-                        b["ordered"] = False
-                        b["start"] = b["delim"] = None
-                        b["bullet"] = "-"
-                    elif b["ordered"]:
+                    if b["ordered"]:
                         b["delim"] = ")" if out[-1]["delim"] == "." else "."
                         self.feats.add("adjacent-olists-delims")
                     else:
